@@ -123,14 +123,24 @@ func (w *treapWorld) compareMap(t forEacher, walk func() [][2][]byte, spec tla.V
 	return "", evals
 }
 
-func walkIter(it *rffldb.VerifTreapIterator) [][2][]byte {
+// walkIter walks the iterator forwards and backwards.  The walks are bounded
+// (a treap of the replayed universe holds at most maxKeys keys): a walk that
+// does not end is cut off and reported as an extra pseudo entry, which the
+// caller's comparison turns into a divergence.
+func walkIter(it *rffldb.VerifTreapIterator, maxKeys int) [][2][]byte {
 	var out [][2][]byte
 	for ok := it.First(); ok; ok = it.Next() {
+		if len(out) > maxKeys {
+			return append(out, [2][]byte{[]byte("forward walk does not terminate"), nil})
+		}
 		out = append(out, [2][]byte{it.Key(), it.Value()})
 	}
 	// and backwards must mirror it
 	var back [][2][]byte
 	for ok := it.Last(); ok; ok = it.Prev() {
+		if len(back) > maxKeys {
+			return append(out, [2][]byte{[]byte("backward walk does not terminate"), nil})
+		}
 		back = append(back, [2][]byte{it.Key(), it.Value()})
 	}
 	if len(back) != len(out) {
@@ -208,7 +218,7 @@ func (w *treapWorld) step(l, obs tla.Value) (string, int64) {
 	}
 	for i, v := range w.vers {
 		v := v
-		d, n := w.compareMap(v, func() [][2][]byte { return walkIter(v.Iterator(nil, nil)) }, sv[i], fmt.Sprintf("immutable version %d of %d after %s", i+1, len(w.vers), l))
+		d, n := w.compareMap(v, func() [][2][]byte { return walkIter(v.Iterator(nil, nil), w.tc.nk) }, sv[i], fmt.Sprintf("immutable version %d of %d after %s", i+1, len(w.vers), l))
 		evals += n
 		if d != "" {
 			return d, evals
@@ -260,10 +270,43 @@ func runTreap(ctx *vrun.Ctx, cfg string, maxPaths int) error {
 	var mu sync.Mutex
 	var evals int64
 	parallel(goWorkers(ctx), len(paths), func(i int) {
-		w := &treapWorld{tc: tc}
+		if atomic.LoadInt64(&hangs) >= maxHangs {
+			return
+		}
 		steps := append([]tlc.Step{{To: g.Init[0]}}, paths[i]...)
+		var progress int64
+		done := make(chan int64, 1)
+		go func() { done <- runTreapPath(ctx, cfg, tc, steps, &progress) }()
+		select {
+		case n := <-done:
+			mu.Lock()
+			evals += n
+			mu.Unlock()
+		case <-time.After(caseTimeout):
+			atomic.AddInt64(&hangs, 1)
+			at := int(atomic.LoadInt64(&progress))
+			var trace []any
+			for _, s := range steps {
+				trace = append(trace, s.To.State["last"].Go())
+			}
+			ctx.Violation("hang:treap:"+steps[at].To.State["last"].F("a").Str(), fmt.Sprintf("replaying a behaviour of %s did not return within %s; it hangs in step %d", cfg, caseTimeout, at),
+				map[string]any{"config": cfg, "failing_step": at, "steps": trace})
+		}
+	})
+	ctx.AddTraces(int64(len(paths)))
+	ctx.AddEval(evals)
+	atomic.AddInt64(&distinctNT, int64(covered))
+	ctx.AddExtra("edges_replayed", int64(covered))
+	return nil
+}
+
+// runTreapPath replays one behaviour; it returns the number of comparisons.
+func runTreapPath(ctx *vrun.Ctx, cfg string, tc *treapConcrete, steps []tlc.Step, progress *int64) int64 {
+	{
+		w := &treapWorld{tc: tc}
 		var n int64
 		for si, st := range steps {
+			atomic.StoreInt64(progress, int64(si))
 			d, e := w.step(st.To.State["last"], st.To.State["obs"])
 			n += e
 			if d != "" {
@@ -277,13 +320,6 @@ func runTreap(ctx *vrun.Ctx, cfg string, maxPaths int) error {
 				break
 			}
 		}
-		mu.Lock()
-		evals += n
-		mu.Unlock()
-	})
-	ctx.AddTraces(int64(len(paths)))
-	ctx.AddEval(evals)
-	atomic.AddInt64(&distinctNT, int64(covered))
-	ctx.AddExtra("edges_replayed", int64(covered))
-	return nil
+		return n
+	}
 }
